@@ -182,6 +182,31 @@ def make_dual(which):
   return dual
 
 
+def nameerr(x, l):
+  if x == 99:
+    l.append('ne')
+    return undefined_name_zz      # a run-time NameError of the user's own program
+  return ('nameerr', x + K)
+
+
+def make_shift(bias):
+  def shifted(x, l):
+    if x == 2:
+      l.append('sh')
+    return ('shift', x + bias)
+  return shifted
+
+
+bias = 40
+
+
+# the same text as the function nested in make_shift, in another lexical context (bias is a global here)
+def shifted(x, l):
+  if x == 2:
+    l.append('sh')
+  return ('shift', x + bias)
+
+
 def bad(x, l):
   for i in range(x):
     l.append(i)
@@ -388,6 +413,9 @@ def build_universe(lane, u):
   # a functools.wraps wrapper and the function it wraps: distinct code objects linked by __wrapped__
   add('a.decorated', a.decorated, group='deco')
   add('a.inner_target', a.inner_target, group='deco')
+  add('a.nameerr', a.nameerr, group='nameerr')
+  add('a.shift@closure', a.make_shift(3), group='shift')
+  add('a.shift@global', a.shifted, group='shift')
   # harness ids for code objects (identity, never id() at comparison time)
   codes = []
   for e in E:
@@ -859,12 +887,17 @@ def make_plan(seed, index, tier, sub):
   nfn = 18
   # focus: a few groups per run so that requests collide on cache entries
   groups = [[0, 1, 8], [2, 3, 4, 9], [5, 6, 7], [10, 11], [12, 13], [14, 15], [16, 18, 19, 20], [17], [25, 26], [21, 22],
-            [23, 24, 25, 26], [20, 16]]
+            [23, 24, 25, 26], [20, 16], [27], [27, 16], [28, 29], [28, 29],
+            # (more weight on members that share one code object: distinct function objects, one cache entry)
+            [2, 3, 4, 9], [0, 8], [5, 6, 7], [2, 3]]
   k = rng.choice([1, 1, 2, 2, 3])
   chosen = rng.sample(groups, k)
   fids = sorted(set(f for g in chosen for f in g))
   n_opt = rng.choice([1, 1, 2, 3])
   optsets = [(rng.random() < 0.6, rng.randrange(len(FEATSETS))) for _ in range(n_opt)]
+  if sub == 'faulty' and len(optsets) == 1:
+    # what a failed conversion leaves behind must not be served under another option set
+    optsets.append((not optsets[0][0], optsets[0][1]))
   threads = []
   for t in range(nthreads):
     nops = rng.randint(1, 6 if nthreads <= 8 else 3)
@@ -991,6 +1024,15 @@ def make_plan(seed, index, tier, sub):
           'thread': t, 'opidx': rng.randrange(len(threads[t]['ops'])), 'point': rng.choice(pts),
           'nth': rng.choice([1, 1, 1, 2]), 'when': rng.choice(['entry', 'exit']),
           'exc': rng.choice(faults.EXC_MENU)})
+    # I/O errors where the I/O is: a share of the faults are OSErrors at the stages that read the source or
+    # write/import the generated module (what a full disk, a vanished temp dir or EMFILE produce)
+    io_pts = [q for q in pts if q.split(':')[0].endswith(('.loader', '.parser', '.inspect_utils'))
+              and q.split(':')[1] in ('load_source', 'load_ast', 'parse_entity', 'getimmediatesource')]
+    for f in plan['faults']:
+      if io_pts and grng.random() < 0.3:
+        f['point'] = grng.choice(io_pts)
+        f['exc'] = grng.choice([e for e in faults.EXC_MENU if e.startswith('OSError')])
+        f['nth'] = 1
   return plan
 
 
